@@ -32,7 +32,8 @@ pub fn check_content(sender: &Node, meaning: &Meaning, viols: &mut Vec<(String, 
             viols.push((format!("delta mentions a member the sender does not hold: {}", md.id.node_id.len()), "delta-unknown-member".into()));
             continue;
         };
-        let dmax = if md.kvs.is_empty() { md.from } else { md.max_version };
+        // delta max version: the last entry's version, or the SetMaxVersion tail, or (header only) nothing
+        let dmax = if md.max_version > 0 { md.max_version.max(md.from) } else { md.from };
         let mut expected: Vec<(&str, &chitchat::VersionedValue)> = ns.key_values_including_deleted().filter(|(_, vv)| vv.version > md.from && vv.version <= dmax).collect();
         expected.sort_by_key(|(_, vv)| vv.version);
         let same = expected.len() == md.kvs.len()
